@@ -319,12 +319,29 @@ impl JoinOp {
     }
 
     /// Extracts equi-join keys as (left_col, right_col) pairs.
+    ///
+    /// Both indices are positions in the combined output schema; the first one always belongs
+    /// to the left input and the second one to the right input, whichever way round the
+    /// condition was written (`ON b.id = a.id`). If some equality does not compare the two
+    /// inputs with each other (`ON a.id = a.x`) the condition is not a usable equi-join
+    /// condition and no keys are returned.
     pub fn extract_equi_keys(&self) -> Vec<(usize, usize)> {
         let mut keys = Vec::new();
         if let Some(cond) = &self.condition {
             Self::collect_equi_keys(cond, &mut keys);
         }
-        keys
+        let left_cols = self.left_schema.num_columns();
+        let mut oriented = Vec::with_capacity(keys.len());
+        for (l, r) in keys {
+            if l < left_cols && r >= left_cols {
+                oriented.push((l, r));
+            } else if r < left_cols && l >= left_cols {
+                oriented.push((r, l));
+            } else {
+                return Vec::new();
+            }
+        }
+        oriented
     }
 
     fn collect_equi_keys(expr: &BoundExpression, keys: &mut Vec<(usize, usize)>) {
